@@ -20,8 +20,12 @@ Min2(a, b) == IF a < b THEN a ELSE b
 
 (* ------------------------------------------------------------ abstract files *)
 R(k, len) == [k |-> k, len |-> len]
-Att(namelen, dsize) == [k |-> "Attachment", fixed |-> 9 + 8 + 8 + 4 + namelen + 4 + 8, dsize |-> dsize,
+Att(namelen, dsize) == [k |-> "Attachment", fixed |-> 9 + 8 + 8 + 4 + namelen + 4 + 8, dsize |-> dsize, namelen |-> namelen, medialen |-> 0,
                         len |-> 9 + 8 + 8 + 4 + namelen + 4 + 8 + dsize + 4]
+(* offsets (from the record's opcode) at which a field of the attachment's fixed part begins: a source that ends exactly
+   there makes io.ReadFull return io.EOF (wrapped by the lexer's error), anywhere else io.ErrUnexpectedEOF *)
+AttFieldStarts(a) == {9, 17, 25, 29 + a.namelen, 33 + a.namelen + a.medialen}
+                     \cup (IF a.namelen > 0 THEN {29} ELSE {}) \cup (IF a.medialen > 0 THEN {33 + a.namelen} ELSE {})
 Chunk(comp, inner) ==
   LET us == Sum([i \in DOMAIN inner |-> inner[i].len])
       cs == IF comp = "none" THEN us ELSE 17
@@ -52,7 +56,7 @@ BaseRead(env, p, n) ==
   LET got == IF Avail(env) - p >= n THEN n ELSE IF Avail(env) > p THEN Avail(env) - p ELSE 0 IN
   [got |-> got,
    err |-> IF got = n THEN "none"
-           ELSE IF env.faultAt >= 0 /\ env.faultAt < env.cut THEN "ioerr"
+           ELSE IF env.faultAt >= 0 /\ env.faultAt <= env.cut THEN "ioerr"      \* incl. an I/O error in place of end-of-file
            ELSE IF got = 0 THEN "eof" ELSE "ueof"]
 
 (* ------------------------------------------------------------ lexer state *)
@@ -73,7 +77,7 @@ BodyFail(s, r) == IF r.err = "ueof" THEN End(s, "error", FALSE)          \* ErrT
 (* outcomes of the chunk validation for a damaged / cut payload *)
 ValidateOutcomes(env, i, payloadComplete) ==
   LET c == env.F[i] IN
-  IF ~payloadComplete THEN {"error"}
+  IF ~payloadComplete THEN (IF c.comp = "none" \/ env.faultAt >= 0 THEN {"error"} ELSE {"error", "ok"})   \* a decompressor may already hold all the data when only the tail of the frame is missing
   ELSE IF env.damaged # i THEN {"ok"}
   ELSE IF env.effect = "benign" THEN {"ok"}
   ELSE IF env.effect = "decomp" THEN {"error"}
@@ -88,7 +92,7 @@ EnterChunk(env, s, i, outcome, rel, relErr) ==
       pstart == p0 + c.hdr
       pavail == IF Avail(env) >= pstart + c.csize THEN c.csize ELSE IF Avail(env) > pstart THEN Avail(env) - pstart ELSE 0
       complete == pavail = c.csize
-      hitFault == env.faultAt >= 0 /\ env.faultAt < env.cut /\ env.faultAt < pstart + c.csize
+      hitFault == env.faultAt >= 0 /\ env.faultAt <= env.cut /\ env.faultAt < pstart + c.csize
   IN
   IF h1.err # "none" THEN (IF h1.err = "ueof" THEN End(s, "error", FALSE) ELSE IF h1.err = "eof" THEN End(s, "eof", FALSE) ELSE End(s, "error", TRUE))
   ELSE IF h2.err # "none" THEN End(s, "error", h2.err = "ioerr")        \* EOF kinds become ErrTruncatedRecord here
@@ -112,13 +116,15 @@ DoAttachment(env, s, i) ==
       data == BaseRead(env, p0 + a.fixed, a.dsize)
       crc == BaseRead(env, p0 + a.fixed + a.dsize, 4)
       whole == BaseRead(env, p0 + 9, a.len - 9)
-      inFault == env.faultAt >= 0 /\ env.faultAt < env.cut /\ env.faultAt >= p0 + 9 /\ env.faultAt < p0 + a.len
+      inFault == env.faultAt >= 0 /\ env.faultAt <= env.cut /\ env.faultAt >= p0 + 9 /\ env.faultAt < p0 + a.len
   IN
   IF ~env.callback
   THEN IF env.seekable THEN [s EXCEPT !.pos = p0 + a.len]                  \* skipped by a relative seek: nothing is read
        ELSE IF whole.err = "none" THEN [s EXCEPT !.pos = p0 + a.len]
        ELSE End(s, IF whole.err = "ioerr" THEN "error" ELSE "eof", whole.err = "ioerr")   \* CopyN error; wraps io.EOF on a cut
-  ELSE IF fields.err # "none" THEN End(s, "error", fields.err = "ioerr")
+  ELSE IF fields.err # "none"
+       THEN IF fields.err = "ioerr" THEN End(s, "error", TRUE)
+            ELSE End(s, IF (Avail(env) - p0) \in AttFieldStarts(a) THEN "eof" ELSE "error", FALSE)
   ELSE IF data.err = "none" /\ crc.err = "none"
        THEN [s EXCEPT !.toks = Append(@, T(i, 0, "")), !.pos = p0 + a.len]
        ELSE (* the callback sees a degraded attachment; reading on (or skipping the remainder) then fails *)
